@@ -1,11 +1,464 @@
 import BarterModel.Lemmas.Channels
+/-!
+# C10C (sub-check of C10) — channels, droppable transmitters, snapshot+updates pairs, merged streams,
+and the run loops that feed the audit stream
+
+Statements only; proofs go through `Lemmas/Channels.lean`. Everything is for **all** items, worlds,
+`Tx` implementations, consumer behaviours and operation histories (no bound on lengths).
+
+* §1 channel: `send` succeeds iff somebody listens, FIFO, the `Iterator` view busy-waits exactly when the
+  `Stream` view is pending;
+* §2 `ChannelTxDroppable` over **any** `Tx`: disabled = no-op for good, first failed send disables,
+  delivered = the items before the first failing one;
+* §3 a droppable transmitter and its receiver, every history: refinement to the log-with-cursor
+  specification; received = a prefix of accepted = a prefix of offered, nothing lost while listening;
+* §4 `Snapshot` laws and the snapshot+updates reconstruction theorem;
+* §5 stream combinators: `merge` is the flat two-queue machine, satisfies `MergeSpec` for every history,
+  is fused, never withholds, is fair, ends promptly; `IndexedStream` maps item by item;
+* §6 run loops: the engine's evolution and shutdown record never depend on the audit transmitter, its
+  world or its consumer; the consumer holds exactly a prefix of the records; link to the C10 model.
+-/
 namespace BarterModel.Props.C10C
 open BarterModel.Chan
 
+/-! ## §1 The channel -/
+
+/-- `UnboundedTx::send` returns `Ok` exactly when the receiver has not been dropped. -/
+theorem send_ok_iff_receiver_alive {α : Type} (c : Chan α) (x : α) :
+    (c.send x).2 = true ↔ c.rxAlive = true := by
+  unfold Chan.send; split <;> simp_all
+
+/-- A successful send appends to the queue and touches nothing else; a failed one changes nothing. -/
+theorem send_effect {α : Type} (c : Chan α) (x : α) :
+    (c.send x).1 = if c.rxAlive then { c with queue := c.queue ++ [x] } else c := by
+  unfold Chan.send; split <;> simp_all
+
+/-- The `Sink` implementation is `send`. -/
+theorem sink_is_send {α : Type} (c : Chan α) (x : α) : c.sinkSend x = c.send x := rfl
+
+/-- FIFO: whatever is sent through a channel with a live receiver comes out in the order sent, each
+item once: `n` polls after sending `xs` yield the first `n` of (what was queued before, then `xs`). -/
+theorem chan_fifo {α : Type} (c : Chan α) (xs : List α) (n : Nat) (h : c.rxAlive = true) :
+    (pollN (sendAll c xs) n).2 = (c.queue ++ xs).take n ∧
+    (pollN (sendAll c xs) n).1.queue = (c.queue ++ xs).drop n := by
+  rw [sendAll_alive c xs h]
+  have := pollN_queue { c with queue := c.queue ++ xs } n
+  exact ⟨this.1, by rw [this.2]⟩
+
+/-- The receiver sees the end of the stream exactly when the queue is drained and no transmitter is left. -/
+theorem recv_done_iff {α : Type} (c : Chan α) : c.pollNext.2 = .done ↔ c.queue = [] ∧ c.senders = 0 := by
+  rcases c with ⟨q, n, r⟩
+  cases q <;> by_cases hn : n = 0 <;> simp [Chan.pollNext, hn]
+
+/-- `<UnboundedRx as Iterator>::next` never returns while the queue is empty and a transmitter exists
+(it busy-waits), and only then. -/
+theorem iterator_spins_iff {α : Type} (c : Chan α) :
+    c.iterNext.2 = .spins ↔ c.queue = [] ∧ c.senders ≠ 0 := by
+  rcases c with ⟨q, n, r⟩
+  cases q <;> by_cases hn : n = 0 <;> simp [Chan.iterNext, Chan.tryRecv, hn]
+
+/-- The `Iterator` and the `Stream` view of the receiver agree: same state afterwards, `Some x` ↔ item `x`,
+`None` ↔ end of stream, busy-wait ↔ `Pending`. -/
+theorem iterator_agrees_with_stream {α : Type} (c : Chan α) :
+    c.iterNext.1 = c.pollNext.1 ∧
+    (match c.iterNext.2, c.pollNext.2 with
+      | .some x, .item y => x = y
+      | .none, .done => True
+      | .spins, .pending => True
+      | _, _ => False) := by
+  rcases c with ⟨q, n, r⟩
+  cases q <;> by_cases hn : n = 0 <;> simp [Chan.iterNext, Chan.tryRecv, Chan.pollNext, hn]
+
+/-! ## §2 `ChannelTxDroppable` over any `Tx` -/
+
+/-- A disabled transmitter's `send` does nothing, to any world (so nothing can reach any receiver, old or new). -/
+theorem disabled_send_is_noop {ω α : Type} (tx : Tx ω α) (w : ω) (x : α) :
+    dsend tx .disabled w x = (.disabled, w) := rfl
+
+/-- `new_disabled` sends nothing, ever. -/
 theorem new_disabled_sends_nothing {ω α : Type} (tx : Tx ω α) (w : ω) (xs : List α) :
-    dsendAll tx .disabled w xs = (.disabled, w) := by
-  induction xs with
-  | nil => rfl
-  | cons x xs ih => simpa [dsendAll, dsend] using ih
+    dsendAll tx DState.newDisabled w xs = (.disabled, w) := dsendAll_disabled tx w xs
+
+/-- Nothing re-enables a transmitter: if it is active after a sequence of sends it was active before. -/
+theorem never_reenabled {ω α : Type} (tx : Tx ω α) (d : DState) (w : ω) (xs : List α)
+    (h : (dsendAll tx d w xs).1 = .active) : d = .active := dsendAll_state_mono tx d w xs h
+
+/-- While every inner send succeeds, the wrapper is transparent: it stays active and the world is exactly
+what the bare transmitter would have produced. -/
+theorem transparent_while_ok {ω α : Type} (tx : Tx ω α) (w : ω) (xs : List α) (h : allOk tx w xs = true) :
+    dsendAll tx DState.new w xs = (.active, sendsWorld tx w xs) := dsendAll_allOk tx w xs h
+
+/-- The first failed inner send disables the transmitter, drops the wrapped `Tx`, and every later item
+(`post`) has no effect whatsoever. -/
+theorem first_failure_disables {ω α : Type} (tx : Tx ω α) (w : ω) (pre post : List α) (x : α)
+    (hpre : allOk tx w pre = true) (hx : (tx.send (sendsWorld tx w pre) x).2 = false) :
+    dsendAll tx DState.new w (pre ++ x :: post) =
+      (.disabled, tx.drop (tx.send (sendsWorld tx w pre) x).1) :=
+  dsendAll_first_fail tx w pre post x hpre hx
+
+/-- `disable` is idempotent and a disabled transmitter stays disabled under `disable`. -/
+theorem disable_idempotent {ω α : Type} (tx : Tx ω α) (d : DState) (w : ω) :
+    ddisable tx (ddisable tx d w).1 (ddisable tx d w).2 = ddisable tx d w ∧ (ddisable tx d w).1 = .disabled := by
+  cases d <;> simp [ddisable]
+
+/-- Over a transmitter that refuses some items and logs the others: the log is exactly the offered items
+before the first refused one (in order, once), the wrapped transmitter is dropped exactly once in that
+case, and never if nothing was refused. -/
+theorem flaky_delivers_prefix (bad : Nat → Bool) (xs : List Nat) :
+    dsendAll (flakyTx bad) DState.new ([], 0) xs =
+      if xs.all (fun x => !bad x) then (.active, (xs, 0))
+      else (.disabled, (xs.takeWhile (fun x => !bad x), 1)) := by
+  have := flaky_all (bad := bad) ([], 0) xs
+  simpa [DState.new] using this
+
+/-! ## §3 One droppable transmitter and its receiver: every history -/
+
+/-- Refinement: after any history, the concrete system (queue, sender count, `ChannelState`) and the
+log-with-cursor specification agree on everything observable — what the receiver has got, whether it has
+seen the end, whether the transmitter is still on, who is still there — and, while the receiver lives,
+the log is what was got followed by what is queued. -/
+theorem refines_spec {α : Type} (d : DState) (ops : List (Op α)) :
+    SysRel ((Sys.init d : Sys α).run ops) ((SpecSys.init (d == .active)).run ops) :=
+  sysRel_run ops (sysRel_init d)
+
+/-- What the receiver has got is a prefix of what was accepted, which is a prefix of what was offered:
+in order, nothing twice, nothing invented, and nothing after the first failed send. -/
+theorem received_prefix_of_accepted_prefix_of_offered {α : Type} (ops : List (Op α)) :
+    ((Sys.init .active : Sys α).run ops).got <+: acceptedOf ops ∧ acceptedOf ops <+: offeredOf ops :=
+  ⟨(sys_facts ops).1, accepted_prefix_offered ops⟩
+
+/-- Nothing is lost while the receiver lives: got ++ still queued = exactly the items offered before the
+transmitter was first cut off. After the receiver is dropped the queue is gone. -/
+theorem nothing_lost_while_listening {α : Type} (ops : List (Op α)) :
+    let s := (Sys.init .active : Sys α).run ops
+    (s.c.rxAlive = true → s.got ++ s.c.queue = acceptedOf ops) ∧ (s.c.rxAlive = false → s.c.queue = []) :=
+  ⟨(sys_facts ops).2.1, (sys_facts ops).2.2.1⟩
+
+/-- A transmitter that is still active has had every offered item accepted. -/
+theorem active_means_all_accepted {α : Type} (ops : List (Op α))
+    (h : ((Sys.init .active : Sys α).run ops).d = .active) : acceptedOf ops = offeredOf ops :=
+  (sys_facts ops).2.2.2 h
+
+/-- As long as nobody cuts the transmitter off (no `disable`, receiver not dropped) it stays active, and
+everything offered is received or queued, in order. -/
+theorem no_cut_delivers_everything {α : Type} (ops : List (Op α)) (h : NoCut ops) :
+    let s := (Sys.init .active : Sys α).run ops
+    s.d = .active ∧ s.got ++ s.c.queue = offeredOf ops := by
+  have hr := run_noCut ops (Sys.init .active : Sys α) h rfl rfl
+  refine ⟨hr.1, ?_⟩
+  rw [(sys_facts ops).2.1 hr.2, acceptedOf_noCut ops h]
+
+/-- Disabled is for good: once the transmitter is off, whatever happens next it stays off and the
+receiver never gets anything beyond what had been got or queued at that moment. -/
+theorem disabled_is_permanent {α : Type} (ops more : List (Op α))
+    (h : ((Sys.init .active : Sys α).run ops).d = .disabled) :
+    let s1 := (Sys.init .active : Sys α).run ops
+    let s2 := (Sys.init .active : Sys α).run (ops ++ more)
+    s2.d = .disabled ∧ (s1.c.rxAlive = true → s2.got <+: s1.got ++ s1.c.queue) := by
+  have r1 := refines_spec (α := α) .active ops
+  have r2 := refines_spec (α := α) .active (ops ++ more)
+  rw [SpecSys.run_append] at r2
+  have hl : ((SpecSys.init (α := α) (DState.active == DState.active)).run ops).live = false := by
+    rw [r1.live, h]; rfl
+  have hf := spec_run_notlive more _ hl
+  refine ⟨?_, fun hrx => ?_⟩
+  · have := r2.live
+    rw [hf.1] at this
+    cases hd : ((Sys.init .active : Sys α).run (ops ++ more)).d with
+    | disabled => rfl
+    | active => rw [hd] at this; cases this
+  · rw [← r2.got, SpecChan.got, hf.2, r1.log hrx]
+    exact List.take_prefix _ _
+
+/-- A transmitter created with `new_disabled`: the receiver never gets anything, whatever the history. -/
+theorem new_disabled_receives_nothing {α : Type} (ops : List (Op α)) :
+    ((Sys.init .disabled : Sys α).run ops).got = [] ∧ ((Sys.init .disabled : Sys α).run ops).d = .disabled := by
+  have r := refines_spec (α := α) .disabled ops
+  have hf := spec_run_notlive ops (SpecSys.init (α := α) (DState.disabled == DState.active)) rfl
+  refine ⟨?_, ?_⟩
+  · rw [← r.got, SpecChan.got, hf.2]
+    show List.take _ [] = []
+    simp
+  · have := r.live
+    rw [hf.1] at this
+    cases hd : ((Sys.init .disabled : Sys α).run ops).d with
+    | disabled => rfl
+    | active => rw [hd] at this; cases this
+
+/-! ## §4 `Snapshot`, `SnapUpdates` -/
+
+theorem snapshot_map_id {α : Type} (s : Snapshot α) : s.map id = s := rfl
+theorem snapshot_map_comp {α β γ : Type} (s : Snapshot α) (f : α → β) (g : β → γ) :
+    (s.map f).map g = s.map (g ∘ f) := rfl
+theorem snapshot_value_map {α β : Type} (s : Snapshot α) (f : α → β) : (s.map f).value = f s.value := rfl
+theorem snapshot_as_ref_value {α : Type} (s : Snapshot α) : s.asRef.value = s.value := rfl
+
+theorem producer_sys {σ υ : Type} (apply : σ → υ → σ) (p : Producer σ υ) (ops : List (Op υ)) :
+    (p.run apply ops).sys = p.sys.run ops ∧ (p.run apply ops).state = (offeredOf ops).foldl apply p.state := by
+  induction ops generalizing p with
+  | nil => exact ⟨rfl, rfl⟩
+  | cons op ops ih =>
+    have := ih (p.step apply op)
+    simp only [Producer.run, Sys.run, List.foldl_cons] at *
+    cases op <;> simp_all [Producer.step, offeredOf]
+
+/-- A snapshot + updates pair is sufficient to follow the producer: for every history of updates,
+reads, receiver drops and `disable`s, the consumer that folds the updates it has received onto the
+snapshot holds exactly the state the producer had after producing that many updates
+(`specReplay`); and the producer's own state is the fold of everything it produced. -/
+theorem replica_tracks_producer {σ υ : Type} (apply : σ → υ → σ) (v0 : σ) (ops : List (Op υ)) :
+    let p := (⟨v0, Sys.init .active⟩ : Producer σ υ).run apply ops
+    p.state = (offeredOf ops).foldl apply v0 ∧
+    replay apply ⟨v0, p.sys.got⟩ = specReplay apply v0 (offeredOf ops) p.sys.got.length := by
+  have hp := producer_sys apply (⟨v0, Sys.init .active⟩ : Producer σ υ) ops
+  refine ⟨hp.2, ?_⟩
+  have hpre : ((Sys.init .active : Sys υ).run ops).got <+: offeredOf ops :=
+    (sys_facts ops).1.trans (accepted_prefix_offered ops)
+  simp only [replay, specReplay, hp.1]
+  rw [← List.prefix_iff_eq_take.mp hpre]
+
+/-- ... and a consumer that has caught up with a transmitter that is still active holds the producer's
+current state. -/
+theorem replica_current_when_caught_up {σ υ : Type} (apply : σ → υ → σ) (v0 : σ) (ops : List (Op υ)) :
+    let p := (⟨v0, Sys.init .active⟩ : Producer σ υ).run apply ops
+    p.sys.d = .active → p.sys.c.rxAlive = true → p.sys.c.queue = [] →
+      replay apply ⟨v0, p.sys.got⟩ = p.state := by
+  intro p hd hrx hq
+  have hp := producer_sys apply (⟨v0, Sys.init .active⟩ : Producer σ υ) ops
+  have hd' : ((Sys.init .active : Sys υ).run ops).d = .active := by rw [← hp.1]; exact hd
+  have hrx' : ((Sys.init .active : Sys υ).run ops).c.rxAlive = true := by rw [← hp.1]; exact hrx
+  have hq' : ((Sys.init .active : Sys υ).run ops).c.queue = [] := by rw [← hp.1]; exact hq
+  have h1 := (sys_facts ops).2.1 hrx'
+  rw [hq', List.append_nil, (sys_facts ops).2.2.2 hd'] at h1
+  show List.foldl apply v0 p.sys.got = p.state
+  rw [hp.2, hp.1, h1]
+
+/-! ## §5 Stream combinators -/
+
+/-- `Fuse`: transparent until the inner stream ends, then `Ready(None)` for ever without polling. -/
+theorem fuse_after_end {σ α : Type} (s : Strm σ α) : s.fuse none = (none, .done) := rfl
+
+theorem fuse_transparent {σ α : Type} (s : Strm σ α) (st : σ) : (s.fuse (some st)).2 = (s st).2 := by
+  simp only [Strm.fuse]
+  split <;> simp_all
+
+/-- `IndexedStream` yields `index(x)` for every item `x` of the inner stream, in order, including the
+failures; pending and the end pass through; the inner stream is advanced exactly as without indexing. -/
+theorem indexed_maps_every_item {α β ε : Type} (index : α → Except ε β) (c : Chan α) :
+    (Strm.indexed index Chan.pollNext c).1 = c.pollNext.1 ∧
+    (Strm.indexed index Chan.pollNext c).2 =
+      (match c.pollNext.2 with | .item x => .item (index x) | .done => .done | .pending => .pending) := by
+  unfold Strm.indexed Strm.map; split <;> simp_all
+
+/-- `merge(left, right)` — `map(Some).chain(once(None))` on both inputs, tokio-stream's `Merge`,
+`map_while(identity)`, `fuse` — over two receivers is the flat two-queue machine `flatPoll`: head of the
+input polled first (alternating), the end as soon as an exhausted-and-closed input is polled. -/
+theorem merge_is_flat_machine {β : Type} (cL cR : Chan β) (af : Bool) :
+    MSt.poll (MSt.live cL cR af) = flatPoll cL cR af ∧
+    (MergedSt.new Chan.new Chan.new : MSt β) = MSt.live Chan.new Chan.new true ∧
+    MSt.poll (none : MSt β) = (none, .done) :=
+  ⟨poll_live cL cR af, rfl, rfl⟩
+
+/-- Every run of the merged stream stays in one of two shapes (`MShape`): two live receivers with
+untouched end markers, or ended with both receivers dropped. -/
+theorem merge_shape {α : Type} (ops : List (MOp α)) : MShape ((MRun.init : MRun α).run ops) :=
+  mshape_run ops mshape_init
+
+/-- The merged stream satisfies the specification read off its doc comment, for every history of sends,
+transmitter drops and polls: each input's contribution is a prefix of what that input accepted (order
+kept, nothing twice), the output is an interleaving of the two contributions, and it has ended only
+because some input was closed and had been handed over completely. -/
+theorem merge_satisfies_spec {α : Type} (ops : List (MOp α)) :
+    let r := (MRun.init : MRun α).run ops
+    MergeSpec r.accL r.accR r.closedL r.closedR r.out r.ended := by
+  have hf := mshape_facts (merge_shape (α := α) ops)
+  exact ⟨hf.1, hf.2.1, interleave_tags _, hf.2.2.1⟩
+
+/-- An interleaving uses every element of both inputs exactly once (it is as long as both together and
+has the same members). -/
+theorem interleave_exactly_once {α : Type} {l r o : List α} (h : Interleave l r o) :
+    o.length = l.length + r.length ∧ ∀ x, x ∈ o ↔ x ∈ l ∨ x ∈ r :=
+  ⟨h.length, h.mem_iff⟩
+
+/-- Nothing is lost before the end: per input, handed over ++ still queued = accepted. -/
+theorem merge_nothing_lost {α : Type} (ops : List (MOp α)) (left : Bool) (c : Chan (Bool × α)) :
+    let r := (MRun.init : MRun α).run ops
+    r.ended = false → r.st.chan left = some c → outOf left r.out ++ c.queue.map (·.2) = r.acc left := by
+  intro r hne hc
+  exact ((mshape_facts (merge_shape (α := α) ops)).2.2.2.1 hne left c hc).1
+
+/-- Fused: after the end every poll says "ended", nothing more is handed over, both receivers are gone
+(so sends fail: nothing is accepted any more). -/
+theorem merge_fused {α : Type} (ops : List (MOp α)) (left : Bool) (x : α) :
+    let r := (MRun.init : MRun α).run ops
+    r.ended = true →
+      (r.step .poll).out = r.out ∧ (r.step .poll).last = some .done ∧ (r.step .poll).ended = true ∧
+      (r.step (.send left x)).accL = r.accL ∧ (r.step (.send left x)).accR = r.accR := by
+  intro r he
+  have hst : r.st = none := (mshape_facts (merge_shape (α := α) ops)).2.2.2.2.mp he
+  rw [step_poll_ended r hst]
+  refine ⟨rfl, rfl, rfl, ?_, ?_⟩ <;>
+    (cases left <;> simp only [MRun.step, hst, MSt.chan] <;> split <;> rfl)
+
+/-- Nothing is withheld: a poll is pending exactly when the stream has not ended, both inputs are open
+and everything they accepted has been handed over. -/
+theorem merge_pending_iff {α : Type} (ops : List (MOp α)) :
+    let r := (MRun.init : MRun α).run ops
+    (r.step .poll).last = some .pending ↔
+      r.ended = false ∧ outOf true r.out = r.accL ∧ outOf false r.out = r.accR ∧
+        r.closedL = false ∧ r.closedR = false :=
+  mrun_pending_iff (merge_shape ops)
+
+/-- Fairness: while both inputs have something that has not been handed over, two consecutive polls
+hand over one item of each input (neither input can starve the other). -/
+theorem merge_fair {α : Type} (ops : List (MOp α)) :
+    let r := (MRun.init : MRun α).run ops
+    r.ended = false → outOf true r.out ≠ r.accL → outOf false r.out ≠ r.accR →
+      ∃ a b, ((r.step .poll).step .poll).out = r.out ++ [a, b] ∧ a.1 ≠ b.1 ∧
+        ((r.step .poll).step .poll).ended = false :=
+  fun h1 h2 h3 => mrun_fair (merge_shape ops) h1 h2 h3
+
+/-- Promptness ("terminate when either stream terminates"): once an input has been closed and everything
+it sent has been handed over, the merged stream ends within two polls and hands over at most one more
+item, of the other input. Whatever else the other input has queued is never delivered. -/
+theorem merge_prompt {α : Type} (ops : List (MOp α)) (left : Bool) :
+    let r := (MRun.init : MRun α).run ops
+    r.ended = false → r.closed left = true → outOf left r.out = r.acc left →
+      ((r.step .poll).step .poll).ended = true ∧
+      (((r.step .poll).step .poll).out = r.out ∨
+        ∃ y, y.1 = !left ∧ ((r.step .poll).step .poll).out = r.out ++ [y]) :=
+  fun h1 h2 h3 => mrun_prompt (merge_shape ops) left h1 h2 h3
+
+/-- The executable outcome set used by the correspondence for runs under a real scheduler is exactly the
+specification: if the left producer means to send `l` and the right one `r`, whatever part of that they
+got accepted, then once the merged stream has ended the pair (left contribution, right contribution) is
+one of `allowedOutcomes`. -/
+theorem merge_outcome_allowed {α : Type} (ops : List (MOp α)) (l r : List α) :
+    let m := (MRun.init : MRun α).run ops
+    m.ended = true → m.accL <+: l → m.accR <+: r → (m.closedL = true → m.accL = l) →
+      (m.closedR = true → m.accR = r) →
+      (outOf true m.out, outOf false m.out) ∈ allowedOutcomes l r m.closedL m.closedR := by
+  intro m he hl hr hcl hcr
+  have hf := mshape_facts (merge_shape (α := α) ops)
+  rw [mem_allowedOutcomes]
+  refine ⟨hf.1.trans hl, hf.2.1.trans hr, ?_⟩
+  rcases hf.2.2.1 he with ⟨h1, h2⟩ | ⟨h1, h2⟩
+  · exact Or.inl ⟨h1, by rw [h2, hcl h1]⟩
+  · exact Or.inr ⟨h1, by rw [h2, hcr h1]⟩
+
+/-! ## §6 Engine run loops and the audit stream -/
+
+/-- The audit stream cannot influence the engine: for every engine, feed, `Tx` implementation, initial
+transmitter state, world and environment (e.g. the audit receiver dropped at any moment, or a transmitter
+that fails at will), `sync_run_with_audit` / `async_run_with_audit` leave the engine in the same state and
+return the same shutdown record as `sync_run` / `async_run`. -/
+theorem audit_does_not_affect_engine {ε ι κ ω : Type} (E : Runner ε ι κ) (tx : Tx ω κ) (env : Nat → ω → ω)
+    (e : ε) (d : DState) (w : ω) (feed : List ι) :
+    (runAudited E tx env 0 e d w feed).engine = (runPlain E e feed).1 ∧
+    (runAudited E tx env 0 e d w feed).shutdown = (runPlain E e feed).2 :=
+  runAudited_engine E tx env 0 e d w feed
+
+/-- With a disabled transmitter the run loop never touches the transmitter's world. -/
+theorem disabled_audit_never_touches_world {ε ι κ ω : Type} (E : Runner ε ι κ) (tx : Tx ω κ) (e : ε) (w : ω)
+    (feed : List ι) :
+    (runAudited E tx (fun _ w => w) 0 e .disabled w feed).world = w ∧
+    (runAudited E tx (fun _ w => w) 0 e .disabled w feed).tx = .disabled :=
+  ⟨(runAudited_disabled E tx (fun _ w => w) 0 e w feed).2, (runAudited_disabled E tx (fun _ w => w) 0 e w feed).1⟩
+
+/-- The loop produces at least one record; the record it returns is the last one; no earlier one is terminal. -/
+theorem shutdown_record_is_last {ε ι κ : Type} (E : Runner ε ι κ) (e : ε) (feed : List ι) :
+    (runTicks E e feed).getLast? = some (runPlain E e feed).2 ∧
+    ∀ t ∈ (runTicks E e feed).dropLast, E.terminal t = false := by
+  refine ⟨runTicks_getLast E e feed, ?_⟩
+  induction feed generalizing e with
+  | nil => simp [runTicks]
+  | cons ev rest ih =>
+    simp only [runTicks]
+    split
+    · simp
+    · rename_i hterm
+      have hne := runTicks_ne_nil E (E.proc e ev).1 rest
+      rw [List.dropLast_cons_of_ne_nil hne]
+      intro t ht
+      rcases List.mem_cons.mp ht with rfl | ht
+      · simpa using hterm
+      · exact ih _ t ht
+
+/-- A consumer that reads everything and drops its receiver while the loop waits for its `K`-th event
+holds exactly the first `K` records (all of them if the loop ends earlier), in order; the transmitter
+ends up disabled iff a record was produced after the drop. -/
+theorem rundrop_receives_exact_prefix {ε ι κ : Type} (E : Runner ε ι κ) (K : Nat) (e : ε) (feed : List ι) :
+    let a := runAudited E worldTx (dropEnv K) 0 e .active (Chan.new, []) feed
+    a.world.2 ++ a.world.1.queue = (runTicks E e feed).take K ∧
+    a.tx = (if K < (runTicks E e feed).length then .disabled else .active) := by
+  have := runAudited_dropEnv E K 0 (Nat.zero_le _) e (Chan.new : Chan κ) [] feed rfl
+  simpa [Chan.new] using this
+
+/-- An audited run over a channel **is** a history of the transmitter + receiver system of §3: before
+each `feed.next()` the consumer does what it does, then the loop offers the next record. Hence all of §3
+applies to the audit stream. -/
+theorem audited_run_is_history {ε ι κ : Type} (E : Runner ε ι κ) (cons : Nat → List (Op κ))
+    (hc : ∀ k, ConsumerOnly (cons k)) (e : ε) (feed : List ι) :
+    let a := runAudited E sysTx (consumerEnv cons) 0 e .active (Sys.init .active) feed
+    sync a.tx a.world = (Sys.init .active : Sys κ).run (schedule cons 0 (runTicks E e feed)) ∧
+    offeredOf (schedule cons 0 (runTicks E e feed)) = runTicks E e feed :=
+  ⟨runAudited_eq_sys E cons hc 0 e .active (Sys.init .active) feed, offeredOf_schedule cons hc 0 _⟩
+
+/-- Whatever the audit consumer does and whenever it drops its receiver: what it has received is a
+prefix of the engine's records — in order, gap-free, nothing twice. -/
+theorem audit_received_prefix_of_ticks {ε ι κ : Type} (E : Runner ε ι κ) (cons : Nat → List (Op κ))
+    (hc : ∀ k, ConsumerOnly (cons k)) (e : ε) (feed : List ι) :
+    (runAudited E sysTx (consumerEnv cons) 0 e .active (Sys.init .active) feed).world.got <+: runTicks E e feed := by
+  have h := audited_run_is_history E cons hc e feed
+  have hs := sys_facts (schedule cons 0 (runTicks E e feed))
+  have hg : (runAudited E sysTx (consumerEnv cons) 0 e .active (Sys.init .active) feed).world.got =
+      ((Sys.init .active : Sys κ).run (schedule cons 0 (runTicks E e feed))).got := by
+    rw [← h.1]; rfl
+  rw [hg]
+  have := hs.1.trans (accepted_prefix_offered _)
+  rwa [h.2] at this
+
+/-- A consumer that keeps its receiver gets everything: received ++ still queued = all records, and the
+transmitter is still active when the loop returns. -/
+theorem audit_complete_while_listening {ε ι κ : Type} (E : Runner ε ι κ) (cons : Nat → List (Op κ))
+    (hc : ∀ k, ∀ op ∈ cons k, op = .recv) (e : ε) (feed : List ι) :
+    let a := runAudited E sysTx (consumerEnv cons) 0 e .active (Sys.init .active) feed
+    a.tx = .active ∧ a.world.got ++ a.world.c.queue = runTicks E e feed := by
+  have hc' : ∀ k, ConsumerOnly (cons k) := fun k op ho => Or.inl (hc k op ho)
+  have h := audited_run_is_history E cons hc' e feed
+  have hn := noCut_schedule cons hc 0 (runTicks E e feed)
+  have hd := no_cut_delivers_everything (schedule cons 0 (runTicks E e feed)) hn
+  simp only at hd
+  rw [← h.1, h.2] at hd
+  exact hd
+
+/-- Link to the C10 model: with `Model/Audit.lean`'s engine as the runner, the records of the loop are
+exactly `runWithAudit`'s audit stream and the final engine is `runWithAudit`'s — so C10's theorems
+(consecutive sequence numbers, terminal record last, replica simulation) are about the very stream that
+§3 / §6 show is delivered as a prefix. -/
+theorem run_loop_is_C10_model (s : BarterModel.Audit.EngA)
+    (feed : List (BarterModel.Engine.Event × BarterModel.Audit.Ask)) :
+    runTicks auditRunner s feed = (BarterModel.Audit.runWithAudit s feed).2 ∧
+    (runPlain auditRunner s feed).1 = (BarterModel.Audit.runWithAudit s feed).1 :=
+  auditRunner_agrees s feed
+
+/-! ## Non-vacuity -/
+
+/-- three items offered, the receiver reads one and goes away, two more offered: got `[1]`, disabled -/
+example : ((Sys.init .active : Sys Nat).run [.dsend 1, .dsend 2, .recv, .dropRx, .dsend 3, .dsend 4]).got = [1] ∧
+    ((Sys.init .active : Sys Nat).run [.dsend 1, .dsend 2, .recv, .dropRx, .dsend 3, .dsend 4]).d = .disabled ∧
+    acceptedOf ([.dsend 1, .dsend 2, .recv, .dropRx, .dsend 3, .dsend 4] : List (Op Nat)) = [1, 2] := by decide
+example : NoCut ([.dsend 1, .recv, .dsend 2] : List (Op Nat)) := by
+  intro op h; simp at h; rcases h with rfl | rfl | rfl <;> simp
+example : allOk (flakyTx (· % 3 == 0)) ([], 0) [1, 2] = true ∧
+    ((flakyTx (· % 3 == 0)).send (sendsWorld (flakyTx (· % 3 == 0)) ([], 0) [1, 2]) 3).2 = false := by decide
+/-- left sends 1, right sends 10 11 12, left closes; four polls: 1, 10, end — 11 and 12 are never delivered -/
+example : ((MRun.init : MRun Nat).run [.send true 1, .send false 10, .send false 11, .send false 12,
+      .close true, .poll, .poll, .poll, .poll]).out = [(true, 1), (false, 10)] ∧
+    ((MRun.init : MRun Nat).run [.send true 1, .send false 10, .send false 11, .send false 12,
+      .close true, .poll, .poll, .poll, .poll]).ended = true := by decide
+example : (([1], [10]) : List Nat × List Nat) ∈ allowedOutcomes [1] [10, 11, 12] true false := by decide
+example : ConsumerOnly ([.recv, .dropRx] : List (Op Nat)) := by
+  intro op h; simp at h; rcases h with rfl | rfl <;> simp
 
 end BarterModel.Props.C10C
